@@ -370,6 +370,44 @@ pub fn run_conc(args: &[i128]) -> Vec<i128> {
     vec![ra.0, rb.0, ra.1, rb.1]
 }
 
+// CONCURRENT shortest-path reasoning over one shared graph (the reasoning methods take &self). line: causalconcsp n rounds_k
+// a chain 0 -> 1 -> ... -> n-1 of threshold causaloids (ids i % 7); thread A repeats reason_shortest_path_between_causes(0, n-1) with
+// data on which every causaloid is true, thread B repeats the same call and reason_single_cause on the inner nodes with data on which
+// every causaloid is false.  output: A's first verdict, how often A's verdict differed from it, B's first verdict, B's differing
+// verdicts.  A verdict is a function of graph and data only: expected 1 0 0 0
+pub fn run_conc_sp(args: &[i128]) -> Vec<i128> {
+    let n = (args[0] as usize).max(2); let rounds = (args[1] as usize).max(1) * 1000;
+    let mut g: BaseCausalGraph<'static> = CausaloidGraph::new();
+    for i in 0..n {
+        let c: C = Causaloid::new((i % 7) as u64, f_thr, "s");
+        if i == 0 { g.add_root_causaloid(c); } else { g.add_causaloid(c); }
+    }
+    for i in 0..n - 1 { let _ = g.add_edge(i, i + 1); }
+    let g = &g;
+    let data_t: Vec<f64> = (0..14).map(|k| (10 * k + 1) as f64).collect();
+    let data_f: Vec<f64> = (0..14).map(|k| (10 * k) as f64).collect();
+    let conv = |r: Result<bool, CausalityGraphError>| -> i128 { match r { Ok(true) => 1, Ok(false) => 0, Err(_) => -1 } };
+    let (ra, rb) = std::thread::scope(|sc| {
+        let ha = sc.spawn(|| {
+            let first = conv(g.reason_shortest_path_between_causes(0, n - 1, &data_t, None));
+            let mut diff = 0;
+            for _ in 1..rounds { if conv(g.reason_shortest_path_between_causes(0, n - 1, &data_t, None)) != first { diff += 1; } }
+            (first, diff)
+        });
+        let hb = sc.spawn(|| {
+            let first = conv(g.reason_shortest_path_between_causes(0, n - 1, &data_f, None));
+            let mut diff = 0;
+            for r in 1..rounds {
+                if r % 2 == 0 { if conv(g.reason_shortest_path_between_causes(0, n - 1, &data_f, None)) != first { diff += 1; } }
+                else { let i = 1 + r % (n - 1); if conv(g.reason_single_cause(i, &data_f[i % 7..i % 7 + 1])) != 0 { diff += 1; } }
+            }
+            (first, diff)
+        });
+        (ha.join().unwrap(), hb.join().unwrap())
+    });
+    vec![ra.0, ra.1, rb.0, rb.1]
+}
+
 // a LARGE graph of singleton causaloids. line: causalbig n
 // nodes 0..n-1 (node 0 is the root); the first 60000 use the threshold function (true on the data below), the later ones the
 // negated one (false on it); edges 0->1, 1->2, 0->3.  output: size, reason_all_causes, shortest-path reasoning 0 -> 2, id of the
